@@ -48,7 +48,18 @@ const passAlphabet = "abcdefghijklmnopqrstuvwxyzABCDEFGHIJKLMNOPQRSTUVWXYZ012345
 // freshPass: a legal passphrase; always contains a non-hex character (so that it can never occur by
 // accident inside hex-encoded data scanned for secrets).
 func freshPass(r *rand.Rand) string {
-	n := 8 + r.Intn(12)
+	// the legal lengths are 6..40: the minimum and the MAXIMUM are boundary cases of every length-bound
+	// buffer on the way of a candidate passphrase, so both are generated often
+	switch r.Intn(5) {
+	case 0:
+		return freshPassLen(r, 6)
+	case 1:
+		return freshPassLen(r, 40)
+	}
+	return freshPassLen(r, 7+r.Intn(33))
+}
+
+func freshPassLen(r *rand.Rand, n int) string {
 	b := make([]byte, n)
 	for i := range b {
 		b[i] = passAlphabet[r.Intn(len(passAlphabet))]
@@ -110,6 +121,40 @@ func wrongOf(r *rand.Rand, right string, others []string) (string, string) {
 	}
 }
 
+type passCand struct{ kind, cand string }
+
+// lengthCandidates: wrong candidates derived from the right passphrase that probe every length boundary:
+// right‖suffix (1, 16, 40 bytes), right without its last byte, right‖NUL, one character case-flipped, empty,
+// and candidates of total length 41, 56 and 80 bytes that START with the right passphrase (a comparison or a
+// buffer that silently truncates a long candidate would accept them).
+func lengthCandidates(r *rand.Rand, right string) []passCand {
+	fill := func(n int) string {
+		b := make([]byte, n)
+		for i := range b {
+			b[i] = passAlphabet[r.Intn(len(passAlphabet))]
+		}
+		return string(b)
+	}
+	fb := []byte(right)
+	i := r.Intn(len(fb))
+	switch {
+	case fb[i] >= 'a' && fb[i] <= 'z':
+		fb[i] -= 32
+	case fb[i] >= 'A' && fb[i] <= 'Z':
+		fb[i] += 32
+	default:
+		fb[i] ^= 1
+	}
+	cs := []passCand{
+		{"suffix1", right + fill(1)}, {"suffix16", right + fill(16)}, {"suffix40", right + fill(40)},
+		{"droplast", right[:len(right)-1]}, {"nul", right + "\x00"}, {"flip", string(fb)}, {"empty", ""},
+	}
+	for _, n := range []int{41, 56, 80} {
+		cs = append(cs, passCand{fmt.Sprintf("len%d", n), right + fill(n-len(right))})
+	}
+	return cs
+}
+
 type ksExport struct{ k, w, pass string }
 
 type secKsGen struct {
@@ -126,6 +171,7 @@ type secKsGen struct {
 	exports []ksExport
 	nW, nA  int
 	nK      int
+	forceLen int              // length of the next created private passphrase (0 = free choice)
 	ctx     map[string]string // wallet -> context tag of the last life-cycle event (restart / chpub / reimport)
 	lastOK  string            // wallet on which the previous op was a successful secret-needing op
 }
@@ -170,6 +216,18 @@ func (k *secKsGen) create() {
 		return
 	}
 	p := freshPass(k.r)
+	if k.forceLen != 0 {
+		p = freshPassLen(k.r, k.forceLen)
+		k.forceLen = 0
+	}
+	switch len(p) {
+	case 6:
+		k.g.Stats["passlen-6"]++
+	case 40:
+		k.g.Stats["passlen-40"]++
+	default:
+		k.g.Stats["passlen-mid"]++
+	}
 	k.op(fmt.Sprintf("create-%d", bits), "kcreate %s %s %d", w, hexp(p), bits)
 	if !validPassGo(k.pub) {
 		return // creation fails: the public passphrase in force is illegal
@@ -342,6 +400,78 @@ func (k *secKsGen) ksLevel(w string) {
 	k.lastOK = ""
 }
 
+// sweep: every length-boundary candidate against the gated operations, first with the keystore LOCKED
+// (the candidate goes through scrypt), then inside the UNLOCKED window opened by a keystore-level signature
+// (the candidate goes through the salted hash), then the right passphrase must still work.
+func (k *secKsGen) sweep(w string, round int) {
+	var usable []string
+	for _, a := range k.addrs[w] {
+		if k.addrIdx[a] < k.nExt[w] {
+			usable = append(usable, a)
+		}
+	}
+	if len(usable) == 0 || !k.present[w] {
+		return
+	}
+	a := usable[k.r.Intn(len(usable))]
+	right := k.pass[w]
+	lenTag := "mid"
+	if len(right) == 6 {
+		lenTag = "6"
+	} else if len(right) == 40 {
+		lenTag = "40"
+	}
+	emit := func(state, op string, c passCand) {
+		k.g.Stats["sweep-"+state+"-"+op]++
+		k.g.Stats["sweep-len"+lenTag+"-"+state+"-"+c.kind]++
+		cls := "sweep-" + state + "-" + c.kind
+		switch op {
+		case "export":
+			k.op(cls, "kexport %s %s KX", w, hexp(c.cand))
+		case "mnemonic":
+			k.op(cls, "kmnemonic %s %s", w, hexp(c.cand))
+		case "signhash":
+			k.op(cls, "ksignhash %s %s %s", w, a, hexp(c.cand))
+		case "kssign":
+			k.op(cls, "kssign %s %s %s", w, a, hexp(c.cand))
+		default: // the check-private-passphrase gate of RemoveWallet
+			k.op(cls, "kremove %s %s", w, hexp(c.cand))
+		}
+	}
+	cands := lengthCandidates(k.r, right)
+	lockedOps := []string{"export", "mnemonic", "signhash", "kssign", "remove"}
+	for i, c := range cands {
+		emit("locked", lockedOps[(i+round)%len(lockedOps)], c)
+	}
+	k.op("q-klocked", "klocked")
+	k.op("kssign-right", "kssign %s %s %s", w, a, hexp(right))
+	k.op("q-kstate", "kstate")
+	unlockedOps := []string{"export", "mnemonic", "kssign", "remove"}
+	for i, c := range cands {
+		if lenTag == "40" && strings.HasPrefix(c.cand, right) && len(c.cand) > len(right) {
+			// maximum-length passphrase, longer candidate, unlocked window: every gated operation
+			for _, op := range unlockedOps {
+				emit("unlocked", op, c)
+			}
+			k.g.Stats["sweep-len40-unlocked-extension"]++
+			continue
+		}
+		emit("unlocked", unlockedOps[(i+round)%len(unlockedOps)], c)
+	}
+	k.op("q-kstate", "kstate")
+	k.op("unlocked-mnemonic-right", "kmnemonic %s %s", w, hexp(right))
+	if k.r.Intn(2) == 0 {
+		// a wallet-level signing call with a candidate ends the window (locks again even when refused)
+		c := cands[k.r.Intn(len(cands))]
+		emit("unlocked", "signhash", c)
+	} else {
+		k.op("ksclear", "ksclear")
+	}
+	k.op("q-klocked", "klocked")
+	k.op("mnemonic-right", "kmnemonic %s %s", w, hexp(right))
+	k.lastOK = ""
+}
+
 func (k *secKsGen) observe(full bool) {
 	k.op("q-klocked", "klocked")
 	if full {
@@ -450,7 +580,7 @@ func (k *secKsGen) removeAndMaybeReimport() {
 			nw := fmt.Sprintf("W%d", k.nW)
 			p := freshPass(k.r)
 			if k.r.Intn(4) == 0 {
-				p = "x1" // ImportWalletWithMnemonic does not validate the passphrase
+				p = fmt.Sprintf("x%d", k.nW) // ImportWalletWithMnemonic does not validate the passphrase (distinct per wallet: the same passphrase would be the same identity)
 			}
 			k.op("importmn-newpass", "kimportmn %s %s %s %d %d", nw, hexp(p), w, ext, in)
 			k.names = append(k.names, nw)
@@ -490,9 +620,21 @@ func genSecKeys(g *Gen) {
 		if g.Rng.Intn(10) == 0 {
 			k.restart() // restart (possibly with a new public passphrase) on an empty database
 		}
+		// the first wallet of the histories cycles through the minimum, a middle and the maximum legal length
+		k.forceLen = []int{6, 7 + g.Rng.Intn(33), 40}[h%3]
 		k.create()
 		steps := 10 + g.Rng.Intn(g.Scale(25, 45))
+		sweepAt := 2 + g.Rng.Intn(6)
 		for s := 0; s < steps; s++ {
+			if s == sweepAt {
+				if ws := k.presentWallets(); len(ws) > 0 {
+					w := ws[0]
+					if k.nExt[w] == 0 {
+						k.newAddr(w)
+					}
+					k.sweep(w, h/3)
+				}
+			}
 			ws := k.presentWallets()
 			c := g.Rng.Intn(40)
 			switch {
